@@ -234,6 +234,7 @@ func runCaseMode(run *vk.Run, dir string, c *pcase, w *world.World, onlyCrash bo
 	b, _ := json.Marshal(steps)
 	os.WriteFile(filepath.Join(dir, "scripts", id+".json"), b, 0o644)
 	ui := mkUI(c)
+	fromIdentity := c.Mode == "recipient" && (len(c.Script)+len(c.Replies))%4 == 1
 	s := sig(c)
 	rp := map[string]interface{}{"check": "C16.conversation", "case": c}
 	type outcome struct {
@@ -253,7 +254,16 @@ func runCaseMode(run *vk.Run, dir string, c *pcase, w *world.World, onlyCrash bo
 			}
 			done <- o
 		}()
-		if c.Mode == "recipient" {
+		if c.Mode == "recipient" && fromIdentity {
+			// encrypting to a plugin identity (age -e -i / -j): the recipient-v1 machine is opened with add-identity
+			encoding = plugin.EncodeIdentity("vscript", []byte(id))
+			i, err := plugin.NewIdentity(encoding, ui)
+			if err != nil {
+				o.err = err
+				return
+			}
+			o.stanzas, o.labels, o.err = i.Recipient().WrapWithLabels(fileKey)
+		} else if c.Mode == "recipient" {
 			encoding = plugin.EncodeRecipient("vscript", []byte(id))
 			r, err := plugin.NewRecipient(encoding, ui)
 			if err != nil {
@@ -309,7 +319,11 @@ func runCaseMode(run *vk.Run, dir string, c *pcase, w *world.World, onlyCrash bo
 			}
 		}
 	}
-	if msg := checkPhase1(c.Mode, p1, encoding, hdrStanzas); msg != "" {
+	p1mode := c.Mode
+	if fromIdentity {
+		p1mode = "recipient-from-identity"
+	}
+	if msg := checkPhase1(p1mode, p1, encoding, hdrStanzas); msg != "" {
 		run.Violation("C16:phase1:"+c.Mode, "what the client sends first is not complete and well formed: "+msg, rp)
 		return
 	}
@@ -364,7 +378,7 @@ func checkPhase1(mode string, p1 []transcriptEvent, encoding string, hdr []*age.
 	next := func() transcriptEvent { e := p1[i]; i++; return e }
 	e := next()
 	wantAdd := "add-recipient"
-	if mode == "identity" {
+	if mode == "identity" || mode == "recipient-from-identity" {
 		wantAdd = "add-identity"
 	}
 	if e.Type != wantAdd || len(e.Args) != 1 || e.Args[0] != encoding || len(e.Body) != 0 {
@@ -374,7 +388,7 @@ func checkPhase1(mode string, p1 []transcriptEvent, encoding string, hdr []*age.
 	if !strings.HasPrefix(e.Type, "grease-") {
 		return "no grease stanza after " + wantAdd
 	}
-	if mode == "recipient" {
+	if mode == "recipient" || mode == "recipient-from-identity" {
 		e = next()
 		if e.Type != "wrap-file-key" || len(e.Args) != 0 || !bytes.Equal(e.Body, fileKey) {
 			return fmt.Sprintf("wrap-file-key carries %x", e.Body)
